@@ -58,6 +58,30 @@ def dec(x):
     raise ValueError(t)
 
 
+def enc(v):
+    """what a field holds, in the value encoding of the harness (compared inside Coq); 'other' = not a number / None /
+    sequence"""
+    if v is None:
+        return {"t": "none"}
+    if isinstance(v, (bool, np.bool_)):
+        return {"t": "other"}
+    if isinstance(v, (int, np.integer)):
+        return {"t": "int", "v": int(v)}
+    if isinstance(v, (float, np.floating)):
+        f = float(v)
+        if math.isnan(f):
+            return {"t": "nan"}
+        if math.isinf(f):
+            return {"t": "inf", "pos": f > 0}
+        return {"t": "float", "v": f.hex()}
+    if isinstance(v, (list, tuple, np.ndarray)):
+        try:
+            return {"t": "seq", "n": len(v)}
+        except TypeError:
+            return {"t": "other"}
+    return {"t": "other"}
+
+
 def same_value(a, b) -> bool:
     if isinstance(b, (float, np.floating)) and math.isnan(b):
         return isinstance(a, (float, np.floating)) and math.isnan(a)
@@ -252,6 +276,19 @@ def handle_guard(p):
                 stored = obj.to_dict().get(field)
             except AttributeError:      # Environment.to_dict() cannot serialise a wavelength carried by a numpy scalar
                 stored = getattr(obj, "_" + field)
+        elif path == "fromdict":
+            # <Class>.from_dict({...}): how a detector saved to a file is read back
+            D, G, C = classes(det)
+            if cls == "Geometry":
+                obj = G.from_dict({**sec["geometry"], field: x})
+            elif cls == "Environment":
+                raise ValueError("Environment.from_dict is the YAML path")
+            else:
+                kw = {**sec["characteristics"], field: x}
+                if field == "avalanche_gain" and x is None:
+                    kw["common_voltage"] = 2.0
+                obj = C.from_dict(kw)
+            stored = obj.to_dict().get(field)
         elif path == "yaml":
             sec[sec_name] = {**sec[sec_name], field: x}
             if field == "avalanche_gain" and x is None:
@@ -274,18 +311,22 @@ def handle_guard(p):
             from pyxel.observation import Observation, ParameterValues
 
             good = sec[sec_name].get(field)
+            if good is None:
+                # fields the base detector leaves unspecified: a valid first point all the same (a dask sweep whose ONLY
+                # value is NaN dies in pandas/xarray with an IndexError before any setter is reached)
+                good = {"wavelength": 600.0, "pixel_scale": 2.0}.get(field)
             detector = py_detector(det, sec)
             values = [x] if good is None or same_value(good, x) else [good, x]     # the points of a sweep are distinct
             obs = Observation(parameters=[ParameterValues(key=f"detector.{sec_name}.{field}", values=values)],
                               with_dask=bool(p.get("dask")))
             res = pyxel.run_mode(mode=obs, detector=detector, pipeline=py_pipeline(empty_pipeline()))
             tree_fingerprint(res)       # forces the computation of every point
-            stored = x
+            return {"accepted": True, "stored": True}      # the swept detector is a copy inside the run: not read back
         else:
             raise ValueError(path)
     except Exception as ex:  # noqa: BLE001
         return classify_exc(ex)
-    return {"accepted": True, "stored": bool(same_value(stored, x))}
+    return {"accepted": True, "stored": bool(same_value(stored, x)), "stored_v": enc(stored)}
 
 
 # ------------------------------------------------------------------------------------------ keys
@@ -295,8 +336,14 @@ def handle_keys(p):
     import pyxel
 
     doc = {}
+    states = p.get("states") or {}     # key -> "filled" (default) | "null" (`key:`) | "empty" (`key: {}`)
     for k in p["present"]:
-        if k == "pipeline":
+        st = states.get(k, "filled")
+        if st == "null":
+            doc[k] = None
+        elif st == "empty":
+            doc[k] = {}
+        elif k == "pipeline":
             doc[k] = empty_pipeline()
         elif k in ("exposure", "observation", "calibration"):
             doc[k] = minimal_mode(k)
@@ -305,7 +352,15 @@ def handle_keys(p):
         else:
             doc[k] = {"anything": 1}
     try:
-        cfg = pyxel.load(dump_yaml(doc, "keys"))
+        path = dump_yaml(doc, "keys")
+        text = path.read_text()
+        for k in p["present"]:
+            if states.get(k) == "null":        # written the way a section with all its lines commented out looks
+                text = text.replace(f"\n{k}: null\n", f"\n{k}:\n")
+                if text.startswith(f"{k}: null\n"):
+                    text = f"{k}:\n" + text[len(f"{k}: null\n"):]
+        path.write_text(text)
+        cfg = pyxel.load(path)
     except Exception as ex:  # noqa: BLE001
         return {"loaded": False, "exc": type(ex).__name__, "msg": str(ex)[:200]}
     used = [k for k in ("exposure", "observation", "calibration") if getattr(cfg, k, None) is not None]
@@ -317,6 +372,31 @@ def handle_keys(p):
     ok_kind = ok_kind and type(cfg.running_mode).__name__ in [kinds[k] for k in used] \
         and type(cfg.detector).__name__ in [kinds[k] for k in used]
     return {"loaded": True, "used": used if ok_kind else used + ["wrong-kind"]}
+
+
+def handle_direct(p):
+    """Configuration(pipeline=..., **objects) with the given running-mode / detector objects built in Python"""
+    from pyxel.configuration import Configuration
+
+    kw = {}
+    for k in p["given"]:
+        if k in ("exposure", "observation", "calibration"):
+            kw[k] = py_mode(k, minimal_mode(k))
+        else:
+            kw[k] = py_detector(k.split("_")[0], base_sections(k.split("_")[0]))
+    pipeline = py_pipeline(empty_pipeline())
+    try:
+        cfg = Configuration(pipeline=pipeline, **kw)
+    except ValueError as ex:
+        return {"accepted": False, "exc": "ValueError", "msg": str(ex)[:200]}
+    except Exception as ex:  # noqa: BLE001
+        return {"error": type(ex).__name__, "msg": str(ex)[:300]}
+    try:
+        ok = all(getattr(cfg, k) is kw[k] for k in kw) and (
+            any(cfg.running_mode is kw[k] for k in kw) and any(cfg.detector is kw[k] for k in kw))
+    except Exception:  # noqa: BLE001   (a configuration without running mode / detector has no .running_mode / .detector)
+        ok = False
+    return {"accepted": True, "holds_given": bool(ok)}
 
 
 # ------------------------------------------------------------------------------------------ settings
@@ -738,6 +818,8 @@ def handle(p):
         return handle_guard(p)
     if k == "keys":
         return handle_keys(p)
+    if k == "direct":
+        return handle_direct(p)
     if k == "settings":
         return handle_settings(p)
     if k == "sweeprun":
